@@ -120,26 +120,13 @@ def wf_html(out):
 
 # ------------------------------------------------------------------------------- H1 kernels
 
-def _renderer(dq, sq, process_html=False):
-    r = HtmlRenderer.__new__(HtmlRenderer)
-    r.html_escape_double_quotes = dq
-    r.html_escape_single_quotes = sq
-    r._suppress_ptag_stack = [False]
-    r.footnotes = {}
-    r.render_map = {}
-    HtmlRenderer_init_map(r)
+def _renderer(dq, sq, process_html=True):
+    """an HtmlRenderer built by its real constructor (so that whatever __init__ sets up is there), with the
+    global token lists put back at once: the kernel / template lemmas call methods on directly built tokens"""
+    r = HtmlRenderer(html_escape_double_quotes=dq, html_escape_single_quotes=sq, process_html_tokens=process_html)
+    block_token.reset_tokens()
+    span_token.reset_tokens()
     return r
-
-
-def HtmlRenderer_init_map(r):
-    # the render_map of BaseRenderer.__init__, without touching the global token lists
-    for name in ('Strong', 'Emphasis', 'InlineCode', 'RawText', 'Strikethrough', 'Image', 'Link', 'AutoLink',
-                 'EscapeSequence', 'Heading', 'Quote', 'Paragraph', 'List', 'ListItem', 'Table', 'TableRow',
-                 'TableCell', 'ThematicBreak', 'LineBreak', 'Document', 'HtmlBlock', 'HtmlSpan'):
-        r.render_map[name] = getattr(r, r._cls_to_func(name))
-    r.render_map['SetextHeading'] = r.render_heading
-    r.render_map['CodeFence'] = r.render_block_code
-    r.render_map['BlockCode'] = r.render_block_code
 
 
 _Q4 = [(False, False), (True, False), (False, True), (True, True)]
@@ -240,8 +227,16 @@ def h1_url(c1: int, c2: int, c3: int, c4: int) -> bool:
 
 # ----------------------------------------------------------------------------- H2 templates
 
+_DIRECT = {}
+
+
 def mk(cls, **attrs):
-    t = object.__new__(cls)
+    """a token of class `cls` built directly (no parsing) with the given attributes.  The object is an instance of
+    a same-named subclass mixed with Duck: reading an attribute the harness did not set (because a constructor
+    was extended) makes the path inconclusive instead of raising AttributeError inside the code under test"""
+    if cls not in _DIRECT:
+        _DIRECT[cls] = type(cls.__name__, (cls, Duck), {'__module__': cls.__module__})
+    t = object.__new__(_DIRECT[cls])
     for k, v in attrs.items():
         setattr(t, k, v)
     return t
